@@ -285,3 +285,73 @@ Proof. cbv zeta. split; [|split; [|split]].
     destruct i as [|[|[|[|[|i]]]]]; try lia; vm_compute; reflexivity.
   - vm_compute. reflexivity.
   - vm_compute. discriminate. Qed.
+
+(* ------------------------------------------------------------------ *)
+(* The zero clauses and is_cyclic.  "Hessian vanishes on outputs linear in the
+   index, wrinkle on outputs quadratic in the index" holds for NON-cyclic
+   calibrators only (C13_hessian_zero_on_linear_index / C13_wrinkle_zero_on_
+   quadratic_index have cyclic = false in their conclusions); here the guard is a
+   hypothesis, and for is_cyclic the exact value is given: the documented sum has
+   one difference per keypoint with wrapped indices, the interior differences of
+   the ramp vanish and exactly the wrap-around differences remain
+   (Proofs/RegularizersCyclic.v). *)
+From TFL Require Import Proofs.RegularizersCyclic.
+
+Theorem C13_zero_clauses_non_cyclic_guard : forall l1 l2 units x cyclic, wf units x -> cyclic = false ->
+  (forall a b : nat -> Q,
+     (forall u i, (u < units)%nat -> (i < length x)%nat -> nth i (outputs x u) 0 == a u + b u * idxQ i) ->
+     pwl_hessian l1 l2 cyclic units x == 0) /\
+  (forall a b c : nat -> Q,
+     (forall u i, (u < units)%nat -> (i < length x)%nat ->
+        nth i (outputs x u) 0 == a u + b u * idxQ i + c u * (idxQ i * idxQ i)) ->
+     pwl_wrinkle l1 l2 cyclic units x == 0).
+Proof. intros l1 l2 units x cyclic Hwf ->. split.
+  - intros a b H. exact (pwl_hessian_zero_linear l1 l2 units x Hwf a b H).
+  - intros a b c H. exact (pwl_wrinkle_zero_quadratic l1 l2 units x Hwf a b c H). Qed.
+Print Assumptions C13_zero_clauses_non_cyclic_guard.
+
+(* is_cyclic, outputs y_i = a + b i on k >= 2 rows: the cyclic Hessian regularizer is
+   the l1/l2 norm of the two wrap-around second differences k b and -(k b), summed
+   over the units: sum_u l1 * 2 k |b_u| + l2 * 2 (k b_u)^2. *)
+Theorem C13_cyclic_hessian_on_linear_index : forall l1 l2 units x, wf units x -> forall a b : nat -> Q,
+  (2 <= length x)%nat ->
+  (forall u i, (u < units)%nat -> (i < length x)%nat -> nth i (outputs x u) 0 == a u + b u * idxQ i) ->
+  pwl_hessian l1 l2 true units x ==
+  qsum (map (fun u => doc_norms l1 l2 (hessian_wrap_terms (length x) (b u))) (seq 0 units)).
+Proof. exact pwl_hessian_cyclic_linear. Qed.
+Print Assumptions C13_cyclic_hessian_on_linear_index.
+
+(* is_cyclic, outputs y_i = a + b i + c i^2 on k >= 3 rows: the cyclic wrinkle regularizer
+   is the l1/l2 norm of the three wrap-around third differences
+   -(k b + k^2 c), 2 k b + (2 k^2 - 2 k) c, -(k b) + (2 k - k^2) c, summed over the units. *)
+Theorem C13_cyclic_wrinkle_on_quadratic_index : forall l1 l2 units x, wf units x -> forall a b c : nat -> Q,
+  (3 <= length x)%nat ->
+  (forall u i, (u < units)%nat -> (i < length x)%nat ->
+     nth i (outputs x u) 0 == a u + b u * idxQ i + c u * (idxQ i * idxQ i)) ->
+  pwl_wrinkle l1 l2 true units x ==
+  qsum (map (fun u => doc_norms l1 l2 (wrinkle_wrap_terms (length x) (b u) (c u))) (seq 0 units)).
+Proof. exact pwl_wrinkle_cyclic_quadratic. Qed.
+Print Assumptions C13_cyclic_wrinkle_on_quadratic_index.
+
+(* The zero clauses WITHOUT the non-cyclic guard are false.  Linear outputs
+   1, 3, 5, 7: non-cyclic Hessian 0, cyclic Hessian 144 (= 8 + 8 + 64 + 64, the
+   closed form above; both hypotheses of that theorem are satisfied here). *)
+Theorem C13_hessian_zero_on_linear_index_cyclic_refuted :
+  let x := [[1]; [2]; [2]; [2]] in
+  wf 1 x /\
+  (forall u i, (u < 1)%nat -> (i < length x)%nat -> nth i (outputs x u) 0 == 1 + 2 * idxQ i) /\
+  pwl_hessian 1 1 false 1 x == 0 /\ pwl_hessian 1 1 true 1 x == 144 /\
+  qsum (map (fun u => doc_norms 1 1 (hessian_wrap_terms (length x) 2)) (seq 0 1)) == 144.
+Proof. exact cyclic_hessian_linear_witness. Qed.
+Print Assumptions C13_hessian_zero_on_linear_index_cyclic_refuted.
+
+(* Quadratic outputs 1, 2, 5, 10, 17: non-cyclic wrinkle 0, cyclic wrinkle 80
+   (= 25 + 40 + 15 with l1 = 1, l2 = 0). *)
+Theorem C13_wrinkle_zero_on_quadratic_index_cyclic_refuted :
+  let x := [[1]; [1]; [3]; [5]; [7]] in
+  wf 1 x /\
+  (forall u i, (u < 1)%nat -> (i < length x)%nat -> nth i (outputs x u) 0 == 1 + 0 * idxQ i + 1 * (idxQ i * idxQ i)) /\
+  pwl_wrinkle 1 0 false 1 x == 0 /\ pwl_wrinkle 1 0 true 1 x == 80 /\
+  qsum (map (fun u => doc_norms 1 0 (wrinkle_wrap_terms (length x) 0 1)) (seq 0 1)) == 80.
+Proof. exact cyclic_wrinkle_quadratic_witness. Qed.
+Print Assumptions C13_wrinkle_zero_on_quadratic_index_cyclic_refuted.
